@@ -14,10 +14,10 @@ CLAIMED = {
    design="7 (C01)"),
  "C02": dict(
    text="Deductive proof that the certificate endpoint signs only for targetUser == the user checkAuth established, that GenSSHCertFileString emits exactly one principal (the user), user type, the parsed submitted key, and that the X.509 templates carry the user as CN, the submitted key, the CA as parent, non-CA + client-auth usage (call-site assertions on x509.CreateCertificate).",
-   note=TRUST + "ssh.ParseAuthorizedKey, SignCert and x509.CreateCertificate are trusted contracts (they emit what the template says). SSH extension set equality is not claimed yet.",
+   note=TRUST + "ssh.ParseAuthorizedKey, SignCert and x509.CreateCertificate are trusted contracts (they emit what the template says). SSH extensions: the five standard ones are present and nothing that is neither standard nor configured is (quantified map contract with a loop invariant); that every configured extension is copied with its value is not claimed (map iteration completeness).",
    design="7 (C02)"),
  "C03": dict(
-   text="Bit-precise (BV64 + IEEE-754) proof that SSH validity never wraps, starts now and is at most duration/1s+1, with time.Duration.Seconds inlined from the standard library; X.509 NotBefore=now, NotAfter=now+duration at the CreateCertificate call sites; certGenHandler reaches the signers only with duration <= 24h and now+duration <= issuedAt+24h; role certificates carry exactly 45 days.",
+   text="Bit-precise (BV64 + IEEE-754) proof that SSH validity never wraps, starts now and is at most duration/1s+1, with time.Duration.Seconds inlined from the standard library; X.509 NotBefore=now, NotAfter=now+duration at the CreateCertificate call sites; certGenHandler reaches the signers only with duration <= 24h and now+duration <= issuedAt+24h; role certificates carry exactly 45 days; when the request names a duration the certificate's is at most that (time.ParseDuration as an uninterpreted function of the string).",
    note=TRUST + "float64->uint64 modelled as lowered on amd64; one clock instant per request; time values within 1970..2116.",
    design="7 (C03)"),
  "C04": dict(
@@ -25,7 +25,7 @@ CLAIMED = {
    note=TRUST + "go-jose is a trusted contract (ParseSigned rejects unlisted algorithms; Claims returns nil only for a verifying key and then fills the destination with the signed payload). The OIDC code/access-token consumers are claimed under C12. GetSigned itself (goroutine+select) is outside the subset.",
    design="7 (C04)"),
  "C05": dict(
-   text="Deductive proof of the per-operation invariant behind the history property: every one of the nine sites that re-sign a session cookie with more factor bits is reached only when each new bit was verified in this request for the very user checkAuth established (ghost bit-set reset by checkAuth and extended by call-site ghost assignments on the VIP/Okta/TOTP/U2F/webauthn/bootstrap verifiers), the cookie that is upgraded belongs to that user, hardware-token challenges and bootstrap OTPs are consumed before the upgrade, an already accepted TOTP period is never evaluated again, expired bootstrap OTPs yield no hash.",
+   text="Deductive proof of the per-operation invariant behind the history property: every one of the nine sites that re-sign a session cookie with more factor bits is reached only when each new bit was verified in this request for the very user checkAuth established (ghost bit-set reset by checkAuth and extended by call-site ghost assignments on the VIP/Okta/TOTP/U2F/webauthn/bootstrap verifiers), the cookie that is upgraded belongs to that user, hardware-token challenges and bootstrap OTPs are consumed before the upgrade, an already accepted TOTP period is never evaluated again and is saved before acceptance is reported, expired bootstrap OTPs yield no hash; fresh session cookies are minted only for the user whose password was just accepted (password level), by the federated-login callback (federated level, named clause) or for the authenticated user's own unexpired CLI token (CLI level).",
    note=TRUST + "Verdicts of the VIP/Okta services and of the u2f/webauthn/totp libraries are uninterpreted call results. Concurrent presentation of one-time values is C16 territory and not covered.",
    design="7 (C05)"),
  "C06": dict(
@@ -54,14 +54,14 @@ CLAIMED = {
    design="7 (C10)"),
  "C11": dict(
    text="Deductive proof (mathematical-int mode with no-overflow obligations) of the RFC 3779 codec: the decoder never panics, accepts exactly prefix lengths 0..32, yields octet j of the encoded block while 8*j < length and 0 beyond, and a /length mask; the encoder emits the mask's length and the first ceil(length/8) IPv4 octets (loop invariants over both copy loops); a lemma function over the two contracts proves that a canonical IPv4 netblock is read back with the same four octets and prefix length. The IP-certificate authenticator hands the TCP peer address (r.RemoteAddr) to the netblock test, and a refresh request keeps the authenticated identity.",
-   note=TRUST + "The verdict of net.IPNet.Contains inside VerifyIPRestrictedX509CertIP (the iff-membership clause) is an assumed contract of that function (listed); asn1.Marshal/Unmarshal and x509 extension transport are trusted to round-trip. Minting-side separation of requestor and target netblocks is not under contract yet.",
+   note=TRUST + "The verdict of net.IPNet.Contains inside VerifyIPRestrictedX509CertIP (the iff-membership clause) is an assumed contract of that function (listed); asn1.Marshal/Unmarshal and x509 extension transport are trusted to round-trip. Minting: as many netblocks as requestor_netblock values were submitted (loop invariants), refresh: the very netblock list read from the presented certificate.",
    design="7 (C11)"),
  "C13": dict(
    text="String-theory proof that CanRedirectToURL accepts only https, no query, no '..', a host equal to or a subdomain of a configured domain (exists-quantified over the list), a matching pattern when patterns are configured, nothing when unconfigured; the authorization handler redirects only to a prefix approved by that function (ghost state); same host rule for CORS origins.",
    note=TRUST + "url.Parse/Hostname and regexp.MatchString are uninterpreted trusted contracts; browsers' divergent URL parsing is out of scope.",
    design="7 (C13)"),
  "C14": dict(
-   text="Deductive proof with a linear ghost token: checkUserPassword (the only caller of the back end, by a call-graph rule) requires a token that only a true rate.Limiter.Allow() grants, at both entry points (login form and basic-auth); validateUserTOTP evaluates a code only if two seconds have passed since the user's last check and no lock-out is in force, counts failures, locks out for an hour at every fifth failure and resets on success.",
+   text="Deductive proof with a linear ghost token: checkUserPassword (the only caller of the back end, by a call-graph rule) requires a token that only a true rate.Limiter.Allow() grants, at both entry points (login form and basic-auth); validateUserTOTP evaluates a code only if two seconds have passed since the user's last check and no lock-out is in force, counts failures (they accumulate while the previous failure is less than a day old), locks out for an hour at every fifth failure and resets on success.",
    note=TRUST + "The numeric rate of the token bucket is rate.Limiter's; concurrent attempts are not covered.",
    design="7 (C14)"),
  "C16": dict(
@@ -82,11 +82,11 @@ CLAIMED = {
    note=TRUST + "Delivery to a subscriber (TCP, JSON encoding) and the SSH wire encoding returned to the requester are not under contract; publication of web/service-provider login events is not claimed. The doubly linked history lists have no reachability predicate in the contract language: that clause is bounded, not proved.",
    design="7 (C20)"),
  "C19": dict(
-   text="Deductive proof that the certificate request built by lib/client/twofa carries exactly the serialisation (PKIX DER in a PUBLIC KEY PEM block, or the SSH authorized-key line) of signer.Public() of the signer it was given (ghost chain over MarshalPKIXPublicKey / pem.EncodeToMemory / ssh.NewPublicKey / MarshalAuthorizedKey down to the request body); call-graph rules pin every private-key serialiser in /repo (PKCS1, PKCS8, OpenSSH) to the four client functions that write key files and to the server's configuration generator - none in code that builds requests; each of those writes the key file through ioutil.WriteFile with mode 0600 (call-site clauses; client code has no os.Create/os.OpenFile); the agent clean-up examines every identity the agent lists before the only Add call; the client generates only P-256/P-384 (plus RSA, Ed25519) keys and the server's key-line pattern accepts the authorized-key line of each of those types (regular-expression inclusion decided exactly by the engine, constant-pattern regexp.MatchString given its exact meaning).",
-   note=TRUST + "That bytes reach only the intended sink (the data flow through bytes.Buffer/multipart inside createKeyBodyRequest) is argued by the absence of private-key serialisers, not by a taint proof; the FIDO/U2F device library (github.com/flynn/u2f/u2fhid) does not type-check in this sandbox (cgo/libudev) and is a body-less stub; removal decisions inside the agent clean-up (certificate + same comment) are not under contract; RSA key size and agent lifetimes are not claimed.",
+   text="Deductive proof that the certificate request built by lib/client/twofa carries exactly the serialisation (PKIX DER in a PUBLIC KEY PEM block, or the SSH authorized-key line) of signer.Public() of the signer it was given (ghost chain over MarshalPKIXPublicKey / pem.EncodeToMemory / ssh.NewPublicKey / MarshalAuthorizedKey down to the request body); call-graph rules pin every private-key serialiser in /repo (PKCS1, PKCS8, OpenSSH) to the four client functions that write key files and to the server's configuration generator - none in code that builds requests; each of those writes the key file through ioutil.WriteFile with mode 0600 (call-site clauses; client code has no os.Create/os.OpenFile); the agent clean-up examines every identity the agent lists and removes each certificate carrying the label (ghost 'must remove' flag in the loop invariant) before the only Add call; once a key line is accepted the only type-dependent refusal is an Ed25519 key without an Ed25519 CA; the client generates only P-256/P-384 (plus RSA, Ed25519) keys and the server's key-line pattern accepts the authorized-key line of each of those types (regular-expression inclusion decided exactly by the engine, constant-pattern regexp.MatchString given its exact meaning).",
+   note=TRUST + "That bytes reach only the intended sink (the data flow through bytes.Buffer/multipart inside createKeyBodyRequest) is argued by the absence of private-key serialisers, not by a taint proof; the FIDO/U2F device library (github.com/flynn/u2f/u2fhid) does not type-check in this sandbox (cgo/libudev) and is a body-less stub; RSA key size and agent lifetimes are not claimed.",
    design="7 (C19)"),
  "C15": dict(
-   text="Deductive proof (a) that every SaveUserProfile call in cmd/keymasterd is reached only with a profile loaded in this request, for the same user, from the primary (ghost 'from cache' flag set by LoadUserProfile): while the primary is unreachable nothing that would change a profile is attempted; (b) over copyDBIntoSQLite with a ghost transaction handle: the only statements issued directly on a database are SELECTs on the source; every insert statement is prepared on the one transaction begun on the destination, after that transaction emptied both mirrored tables; nothing is prepared or executed on the destination outside it; the commit happens only after both tables were emptied - so a completed copy mirrors additions, changes and deletions, and (database/sql transactions being atomic, trusted) a copy that fails at any statement leaves the previous content.",
+   text="Deductive proof (a) that every SaveUserProfile call in cmd/keymasterd is reached only with a profile loaded in this request, for the same user, from the primary (ghost 'from cache' flag set by LoadUserProfile): while the primary is unreachable nothing that would change a profile is attempted; (b) over copyDBIntoSQLite with a ghost transaction handle: the only statements issued directly on a database are SELECTs on the source; every insert statement is prepared on the one transaction begun on the destination, after that transaction emptied both mirrored tables; nothing is prepared or executed on the destination outside it; the commit happens only after both tables were emptied, never after a row that could not be read or written, and never while a finished row iteration has not been checked with Err() - so a completed copy mirrors additions, changes and deletions, and (database/sql transactions being atomic, trusted) a copy that fails at any statement leaves the previous content.",
    note=TRUST + "NOT covered, declared out of reach of contracts on /repo's functions: the gob encode/decode round trip of a profile (encoding/gob), the SQL engines and their crash behaviour (statement-level fault injection is another technique), the column mapping of the copied rows (values travel through variadic interface packs the engine does not track), cache-first reads while the primary is reachable.",
    design="7 (C15)"),
 }
